@@ -85,6 +85,11 @@ func (w *World) Expectation(rec *ScanRecord, gr *GroupRec) Expect {
 	gv := gr.GV
 	ex := Expect{Need: -1}
 	switch {
+	case rec.Err != nil || rec.Panic != nil || rec.FatalExit:
+		// the scan ended early (documented fatal error, or a crash judged by M20): what the
+		// groups would have done afterwards cannot be judged
+		ex.Kind = "aborted"
+		return ex
 	case !gr.Processed:
 		ex.Kind = "unprocessed"
 		return ex
@@ -576,6 +581,10 @@ func (w *World) M06(rec *ScanRecord) []Violation {
 			out = append(out, viol(prop, sig, "group %d: u=(%v/%v cpu, %v/%v mem) thr=%d/%d/%d%s expected band %v with U=%d min=%d rates=%d/%d; got tainted=%d untainted=%d cloud-requests=%d",
 				gr.G, gr.GV.ReqCPU, gr.GV.CapCPU, gr.GV.ReqMem, gr.GV.CapMem, o.TaintLowerCapacityThresholdPercent, o.TaintUpperCapacityThresholdPercent, o.ScaleUpThresholdPercent,
 				ex.Edge, want, U, m, o.SlowNodeRemovalRate, o.FastNodeRemovalRate, k, un, inc))
+			// no lock may be taken for capacity that did not arrive (C18)
+			if gr.PrevIncreaseFailed && !rec.Restarted && k == 0 && un == 0 && inc == 0 && gr.K8sWrites+gr.AWSWrites == 0 {
+				out = append(out, viol("C18", "lock-after-failed-scale-up", "group %d: the previous scan's cloud scale-up failed, yet this scan (expected %v) takes no action at all", gr.G, want))
+			}
 			// a group past its cool-down that still behaves as locked breaks C02's release half
 			if !gr.LockT0.IsZero() && !rec.Restarted && k == 0 && un == 0 && inc == 0 && gr.K8sWrites+gr.AWSWrites == 0 {
 				out = append(out, viol("C02", "lock-outlives-cooldown", "group %d: cool-down %v ended at %v, scan at %v still takes no action (expected %v)", gr.G,
